@@ -159,7 +159,7 @@ func checkC03(r *mon.Run) {
 					cs = signedBy[rng.Intn(len(signedBy))]
 					shape = append(shape, "same-key")
 				} else {
-					cs = getCertSet(rng.Intn(8), rng.Intn(keys.NumIssuerClasses), big.NewInt(int64(9000+hi*8+s)))
+					cs = getCertSetPad(rng.Intn(8), rng.Intn(keys.NumIssuerClasses), big.NewInt(int64(9000+hi*8+s)), (hi+s)%8)
 					shape = append(shape, "new-key")
 				}
 				bits = append(bits, fmt.Sprint(cs.Key.Bits))
@@ -193,6 +193,9 @@ func checkC03(r *mon.Run) {
 					return
 				}
 				r.Count("outputs_structurally_checked", 1)
+				if bl := certTableBlobs(out); len(bl) > 0 {
+					r.Count(fmt.Sprintf("entry_length_mod8_%d", (len(bl[len(bl)-1])+8)%8), 1)
+				}
 				// re-parse: same digest, verifies for every signer, not for a stranger
 				re, err := authenticode.Parse(bytes.NewReader(out))
 				if err != nil {
@@ -279,6 +282,7 @@ func checkC03(r *mon.Run) {
 	r.Floor("outputs_structurally_checked", int64(nh))
 	for m := 0; m < 8; m++ {
 		r.Floor(fmt.Sprintf("inputs_len_mod8_%d", m), 1)
+		r.Floor(fmt.Sprintf("entry_length_mod8_%d", m), 1)
 	}
 	if haveOpenssl() {
 		r.Floor("openssl_confirmations", 5)
